@@ -234,9 +234,6 @@ impl ToZinc for Uri {
     fn to_zinc<W: std::io::Write>(&self, writer: &mut W) -> Result<()> {
         writer.write_all(b"`")?;
         for c in self.value.chars() {
-            if c < ' ' {
-                continue;
-            }
             match c {
                 '`' => writer.write_all(br"\`")?,
                 '\\' => writer.write_all(br"\\")?,
